@@ -308,6 +308,25 @@ func (e *Engine) contractForCall(com *ssa.CallCommon) (*Contract, *ssa.Function)
 
 // findContractByShortName: "Rescale" / "Amount.Rescale" / "num.Amount.Rescale" style lookup for contract-level calls.
 func (e *Engine) findContractByShortName(name string, pkg *types.Package) *Contract {
+	if k := strings.Index(name, "."); k > 0 {
+		// Type.Method (value or pointer receiver) in pkg or any package
+		tn, mn := name[:k], name[k+1:]
+		var hits []*Contract
+		for key, c := range e.cs.Funcs {
+			if strings.HasSuffix(key, "."+tn+")."+mn) {
+				hits = append(hits, c)
+			}
+		}
+		if len(hits) == 1 {
+			return hits[0]
+		}
+		for _, c := range hits {
+			if pkg != nil && c.PkgPath == pkg.Path() {
+				return c
+			}
+		}
+		return nil
+	}
 	var hits []*Contract
 	for k, c := range e.cs.Funcs {
 		short := k
